@@ -18,6 +18,22 @@ CHECKS = {
         "on the two sides is not decided.",
    design_ref="DESIGN.md §3 C04"),
 }
+CHECKS["C05"] = dict(
+   technique="static analysis: MUST-GUARDS summaries (reject decisions dominating acceptance, inter-procedural, per-iteration form for loops) + canonical comparison and data-flow origin of operands",
+   text="Static proof over all paths of the generic MIR of FriVerifier::verify that acceptance is dominated by the degree-truncation, "
+        "layer-commitment, folding-consistency, remainder-size, remainder-evaluation and remainder-commitment decisions, each matched by its "
+        "canonical comparison (reject iff L op R) and by the origin of L and R (channel reads, stored commitments and alphas, max_poly_degree); "
+        "layer and remainder loops range over all layers/positions; commitments are absorbed before the challenge that folds them. Necessary "
+        "structural condition for soundness against every adversary strategy; the folding arithmetic itself is not decided.",
+   design_ref="DESIGN.md §3 C03/C05/C02")
+CHECKS["C03"] = dict(
+   technique="static analysis: binding table over proof components checked by must-pass-through + data-flow origin; Merkle/leaf recomputation flow; reader/trailing-byte pairing",
+   text="Static proof that every field of Proof is consumed by the verifier channel and every parsed component is tied to the transcript before "
+        "the query positions are drawn: absorbed (must-pass reseed whose data originates in the component), authenticated by a Merkle decision "
+        "against an absorbed root with leaves recomputed from the returned values, or hash-compared with an absorbed commitment; every sub-parser "
+        "rejects trailing bytes on all accepting paths. A component without a binding (e.g. a new field, a dropped absorption, a weakened "
+        "exact-length decision) is reported. Hash/Merkle arithmetic is not decided.",
+   design_ref="DESIGN.md §3 C03/C05/C02")
 NA = {
 }
 PENDING = "check under construction in this build round (see DESIGN.md §8)"
